@@ -34,12 +34,19 @@ fn list_items_lane(ctx: &mut Ctx, _idx: u64) {
         let lossless_p: deb822_lossless::Paragraph = w.to_paragraph();
         let back_lossy = <Source as FromDeb822Paragraph<deb822_lossless::lossy::Paragraph>>::from_paragraph(&lossy_p).map(|x| x.package_list);
         let back_lossless = <Source as FromDeb822Paragraph<deb822_lossless::Paragraph>>::from_paragraph(&lossless_p).map(|x| x.package_list);
-        Ok::<_, String>((v.package_list, shown, back_lossy, back_lossless))
+        let binaries_shown = deb822_lossless::Deb822::from_str(&g.text).map_err(|e| e.to_string())?.paragraphs().next().and_then(|p| p.get("Binary"));
+        Ok::<_, String>((v.package_list, shown, back_lossy, back_lossless, v.binaries, binaries_shown))
     });
     match res {
         Err(f) => ctx.violation(&format!("{}|control::lossy::apt::Source|list-items", f.class()), json!({"input": clip(&g.text), "failure": f.json()})),
         Ok(Err(e)) => ctx.violation("wellformed-document-rejected|control::lossy::apt::Source|list-items", json!({"input": clip(&g.text), "error": e})),
-        Ok(Ok((items, shown, bl, bll))) => {
+        Ok(Ok((items, shown, bl, bll, binaries, binaries_shown))) => {
+            // the Binary field of a Sources stanza is a comma-separated list of names
+            let want_bin: Option<Vec<String>> = binaries_shown.map(|s| s.split(|c: char| c == ',' || c.is_whitespace()).filter(|x| !x.is_empty()).map(|x| x.to_string()).collect());
+            if binaries != want_bin {
+                ctx.violation("list-differs-from-lossless-view|control::lossy::apt::Source|Binary", json!({"input": clip(&g.text), "typed": binaries, "names": want_bin}));
+                return;
+            }
             let want = norm_value(&shown);
             if items != want {
                 ctx.violation("list-differs-from-lossless-view|control::lossy::apt::Source|Package-List", json!({"input": clip(&g.text), "typed": items, "lossless": want}));
